@@ -111,7 +111,8 @@ func ruleP19Rmw(p *Prog, r *Report) {
 			r.bad(rule, key+":write-error", p.instrPos(w), "the write's error is discarded")
 		}
 		// no write before the callback
-		r.check(reachableFrom(cb.Block(), nil)[w.Block()] && !reachableFrom(w.Block(), nil)[cb.Block()] || cb.Block() == w.Block(), rule, key+":order", p.instrPos(w), "read -> manipulate -> write", "the write does not follow the manipulation")
+		wb := blockIn(f, w)
+		r.check(reachableFrom(cb.Block(), nil)[wb] && !reachableFrom(wb, nil)[cb.Block()] || cb.Block() == wb, rule, key+":order", p.instrPos(w), "read -> manipulate -> write", "the write does not follow the manipulation")
 	}
 	// callers return the error
 	n := 0
@@ -202,43 +203,60 @@ func ruleP19CmdEffects(p *Prog, r *Report) {
 		switch s.op {
 		case "Set":
 			// the bookmark: NewBookmark(opt.Name, file) / NewDefaultBookmark(file) when the name is empty
-			bm := deref(op.Common().Args[0])
-			okB := false
-			if c, idx := callOf(bm); c != nil && idx == 0 {
-				if g := staticCallee(c); g != nil && g.Parent() == run {
-					okB = true
-					for _, ret := range returnsOf(g) {
-						rc, _ := callOf(retResult(ret, 0))
-						if rc == nil || staticCallee(rc) == nil {
-							okB = false
-							continue
-						}
-						switch fnBase(staticCallee(rc)) {
-						case "NewBookmark":
-							if tag, _ := fieldTagOfLoad(rc.Common().Args[0]); tag != "bookmark" {
-								okB = false
-							}
-						case "NewDefaultBookmark":
-							// only when the name is empty
-							empty := false
-							for _, gd := range guardsOf(ret.Block()) {
-								if b, ok := gd.Cond.(*ssa.BinOp); ok {
-									if sv, isS := constString(b.Y); isS && sv == "" && (b.Op == token.EQL) == gd.Pol {
-										if tag, _ := fieldTagOfLoad(b.X); tag == "bookmark" {
-											empty = true
-										}
-									}
+			// every alternative of the value (closure returns, if/else assignments, helper returns)
+			bmv := deref(op.Common().Args[0])
+			if fv, isFV := strip(op.Common().Args[0]).(*ssa.UnOp); isFV && bmv == ssa.Value(fv) {
+				// a captured variable with several assignments: look at the variable itself
+				if inner, ok := fv.X.(*ssa.FreeVar); ok {
+					if b := freeVarBinding(inner); b != nil {
+						if al, isA := b.(*ssa.Alloc); isA {
+							for _, ref := range *al.Referrers() {
+								if ld, isLd := ref.(*ssa.UnOp); isLd && ld.Op == token.MUL {
+									bmv = ld
+									break
 								}
 							}
-							if !empty {
-								okB = false
+							if bmv == ssa.Value(fv) {
+								// no load in the parent: synthesise rows from the stores
+								bmv = &ssa.UnOp{Op: token.MUL, X: al}
 							}
-						default:
-							okB = false
 						}
 					}
-				} else if g != nil && fnBase(g) == "NewBookmark" {
-					okB = true
+				}
+			}
+			rows := valueRows(bmv, 0, map[ssa.Value]bool{})
+			okB := len(rows) > 0
+			for _, rw := range rows {
+				rc, _ := callOf(rw.val)
+				if rc == nil || staticCallee(rc) == nil {
+					okB = false
+					continue
+				}
+				switch fnBase(staticCallee(rc)) {
+				case "NewBookmark":
+					if tag, _ := fieldTagOfLoad(rc.Common().Args[0]); tag != "bookmark" {
+						okB = false
+					}
+				case "NewDefaultBookmark":
+					// only when the name is empty
+					if len(rows) == 1 {
+						okB = false
+					}
+					empty := false
+					for _, gd := range rw.guards {
+						if b, ok := gd.Cond.(*ssa.BinOp); ok {
+							if sv, isS := constString(b.Y); isS && sv == "" && (b.Op == token.EQL) == gd.Pol {
+								if tag, _ := fieldTagOfLoad(b.X); tag == "bookmark" {
+									empty = true
+								}
+							}
+						}
+					}
+					if !empty {
+						okB = false
+					}
+				default:
+					okB = false
 				}
 			}
 			r.check(okB, rule, s.cmd+":bookmark", p.instrPos(op), "sets the bookmark named by the argument (unnamed -> default bookmark)", "the bookmark that is set is not NewBookmark(name argument, file) / NewDefaultBookmark(file) for the empty name")
